@@ -290,6 +290,32 @@ def fam_c20(tier, seed):
         sc["tags"] = ["pool", "reclaim", "trickle", "burst:%d" % burst]
         scs.append(sc)
         k += 1
+    # (a3) the minimum workers are kept busy by long-lived connections while bursts come and go: the
+    #      surplus workers of EVERY burst must be reclaimed (the count must not ratchet up)
+    for nlong, bursts3 in ((4, [3, 3]), (4, [3, 3, 3]), (5, [2, 4])):
+        cc = []
+        c = 0
+        for _ in range(nlong):
+            d, j, ln = simple_conn(c, 1)
+            d["prog"] = [{"op": "sleep", "ns": 2 * MS}, {"op": "send", "to": ln}]      # stays open until teardown
+            cc.append((d, j, ln))
+            c += 1
+        t = 20
+        probes = [1 * MS]
+        for b in bursts3:
+            for _ in range(b):
+                d, j, ln = simple_conn(c, 1)
+                d["prog"] = [{"op": "sleep", "ns": t * MS}, {"op": "send", "to": ln}, {"op": "sleep", "ns": 10 * MS}, {"op": "half"}]
+                cc.append((d, j, ln))
+                c += 1
+            t += 6000
+            probes.append((t - 300) * MS)
+        # the long-lived connections keep `nlong` workers busy: they are not idle workers to reclaim
+        sc = scenario("C20-%04d" % k, "C20", cc, [R_recv(), R_recv()], horizon_ms=t, single=False,
+                      reclaim=[[i + 2, max(0, nlong - 4)] for i in range(len(bursts3))], probes_ns=probes)
+        sc["tags"] = ["pool", "reclaim", "busy-minimum", "bursts:" + "+".join(map(str, bursts3))]
+        scs.append(sc)
+        k += 1
     # (b) drop while requests are held: they are still answered; new connections are refused
     for n, nk in itertools.product([1, 2, 5], [1, 2]):
         cc = []
@@ -360,6 +386,8 @@ def fam_c01(tier, seed, prop="C01"):
     if True:
         # the shapes behind F1 are always present
         prods += [("r5", "w0", "r5"), ("r1025", "w0", "w2n"), ("w0", "r5"), ("r5", "w0"), ("r5", "wf1"), ("r1025", "wf1", "r5"), ("w2f", "wf1")]
+    # longer pipelines: several writers in a row that never write before they are dropped
+    prods += [("r5", "w0", "w0", "r5"), ("r1025", "w0", "w0", "w2f"), ("w1f", "w0", "w0", "w0", "r5"), ("r5", "w0", "drop", "w0", "r5"), ("rbig", "w0", "w0", "rundecl")]
     for combo in prods:
         for mode in ("spawn", "inline"):
             delays = [0] * len(combo)
@@ -421,6 +449,7 @@ def _with_read(plan, upto=None, sizes=None, to_eof=False, ask=0):
 def _body_variants(tier):
     """(tag, Msg kwargs) for a request with a body"""
     v = [
+        ("cl0", dict(framing="cl", body_len=0)),
         ("cl1", dict(framing="cl", body_len=1)),
         ("cl5", dict(framing="cl", body_len=5)),
         ("cl1023", dict(framing="cl", body_len=1023)),
@@ -458,10 +487,13 @@ def fam_c09(tier, seed):
         for (ctag, ckw), fin, fol in itertools.product(cons, sorted(finishes), sorted(followers)):
             if tier == "quick" and rng.random() > 0.35:
                 continue
-            first = Msg(method="POST", plan=_with_read(finishes[fin](), **ckw), **kw)
+            # the request with the body in HTTP/1.1, HTTP/1.0 keep-alive (the connection continues) or with
+            # Connection: close (what follows must never be parsed)
+            ver, cn = rng.choice([("1.1", None), ("1.1", None), ("1.0", "keep-alive"), ("1.1", "keep-alive"), ("1.1", "close"), ("1.0", None)])
+            first = Msg(method="POST", version=ver, conn=cn, plan=_with_read(finishes[fin](), **ckw), **kw)
             d, j, ln = conn([first] + followers[fol](), 0)
             sc = scenario("C09-%04d" % k, "C09", [(d, j, ln)], _single_app(), horizon_ms=100)
-            sc["tags"] = ["boundary", tag, ctag, fin, "follower:" + fol]
+            sc["tags"] = ["boundary", tag, ctag, fin, "follower:" + fol, "v%s/%s" % (ver, cn)]
             if ctag == "zero":
                 sc["tags"].append("zero-length-read")
             if kw["framing"] == "chunked" and ctag != "eof":
@@ -597,6 +629,22 @@ def fam_c12(tier, seed):
                         sc["tags"] = ["persistence", "v" + ver, "conn:%s" % ch, "pos:%d/%d" % (pos, n), "trail:" + trail] + (["half"] if half is not None else [])
                         scs.append(sc)
                         k += 1
+    # a connection-ending request whose (large / chunked) body is only partly sent and which the handler
+    # answers without reading: the client must still see end-of-stream right after the response
+    for ver, ch in (("1.1", "close"), ("1.0", None), ("1.1", "keep-alive, close")):
+        for tag, kw in (("cl5000", dict(framing="cl", body_len=5000)), ("ch2000", dict(framing="chunked", body_len=2000, chunks=[700, 1300])),
+                        ("cl1025", dict(framing="cl", body_len=1025))):
+            for sent in (0, 3, 600):
+                for pos in (0, 1):
+                    last = Msg(method="POST", version=ver, conn=ch, plan=respond(200, 4), **kw)
+                    msgs = ([Msg()] if pos == 1 else []) + [last]
+                    d, j, ln = conn(msgs, 0)
+                    he = d["msgs"][pos]["he"]
+                    d["prog"] = [{"op": "send", "to": min(he + sent, ln)}]
+                    sc = scenario("C12-%04d" % k, "C12", [(d, j, ln)], _single_app(), horizon_ms=100)
+                    sc["tags"] = ["persistence", "last-with-unsent-body", "v" + ver, "conn:%s" % ch, tag, "sent:%d" % sent]
+                    scs.append(sc)
+                    k += 1
     return scs
 
 def _bad_heads():
@@ -735,6 +783,24 @@ def fam_c18(tier, seed):
         k += 1
     return scs
 
+def line_cuts(stream_hex, limit=4000):
+    """offsets around every CRLF of the stream and in the middle of every line / data run between two
+    CRLFs (inside a request line, a header line, a chunk-size line, chunk data, ...)"""
+    b = bytes.fromhex(stream_hex)[:limit]
+    pos = [0]
+    i = b.find(b"\r\n")
+    while i >= 0:
+        pos.append(i)
+        pos.append(i + 2)
+        i = b.find(b"\r\n", i + 2)
+    pos.append(len(b))
+    cuts = set()
+    for a, c in zip(pos, pos[1:]):
+        for o in (a, a + 1, (a + c) // 2, c - 1):
+            if 0 < o < len(b):
+                cuts.add(o)
+    return sorted(cuts)
+
 def corpus(tier):
     """conversations covering every framing kind and error class (C13, C15)"""
     c = []
@@ -775,8 +841,9 @@ def fam_c13(tier, seed):
             singles = list(range(1, ln)) if ln <= 2500 else sorted(structural)
         else:
             singles = sorted(structural)
-        if tier == "quick" and len(singles) > 60:
-            singles = sorted(rng.sample(singles, 60))
+        singles = sorted(set(singles) | set(o for o in line_cuts(d0["stream_hex"]) if 0 < o < ln))
+        if tier == "quick" and len(singles) > 80:
+            singles = sorted(rng.sample(singles, 80))
         for s in singles:
             cutsets.append(("split@%d" % s, [s]))
         if ln <= (400 if tier == "quick" else 3000):
@@ -809,7 +876,10 @@ def fam_c15(tier, seed):
                     for dlt in (-1, 0, 1):
                         if 0 <= o + dlt <= ln:
                             structural.add(o + dlt)
-            offs = sorted(structural | set(rng.sample(offs, 12)))
+            offs = sorted(structural | set(rng.sample(offs, 12)) | set(o for o in line_cuts(d0["stream_hex"]) if o <= ln))
+            if len(offs) > 90:
+                keep = set(structural)
+                offs = sorted(keep | set(rng.sample(offs, 70)))
         for off in offs:
             for fault in ("half", "close", "reset"):
                 d, j, ln2 = conn(mk(), 0)
